@@ -22,4 +22,15 @@ CLAIMED['C02'] = {
             'in by hand from the property statement/README; INTERNAL_ERROR endings only through synthetic results.',
     'technique': 'Coq finite-table proof + tables regenerated from running code (vm_compute obligations) + end-to-end differential runs',
 }
+CLAIMED['C16'] = {
+    'text': 'proof: over the Gallina model of the suite reader/enumerator/executor and both reporters: a read error gives '
+            'INVALID_SUITE/3 with no case processed; processing order = sub-suites first, listing order; each listing '
+            'processed once; globs sorted; progress OK/0 iff all cases PASS/SKIPPED/XFAIL; JUnit tests/failures+errors/'
+            'child elements; reporters agree (all closed under the global context); pre-fix JUnit classification refuted. '
+            'Regenerated reporter tables (C16_gen_reporters_match) + ~500 end-to-end suite runs per quick run tie model to code; '
+            'validity of a hierarchy is additionally checked against a declarative unfolding spec on every run.',
+    'note': 'trusted: Coq kernel + vm_compute; harness evaluates stat/glob to build the model file system; the equivalence '
+            'reader-accepts <-> declarative validity is checked per generated hierarchy by vm_compute, not yet proved in general.',
+    'technique': CORR + ' + regenerated reporter tables',
+}
 NOT_CLAIMED = {}
